@@ -233,6 +233,16 @@ def run(ctx):
         if nb != want:
             ctx.violation("property_fails", "get_neighbors_decoded differs from the defined action",
                           {"oracle": "neighbors", "graph": gd, "config": cfgd, "states": sts}, True)
+        # the inverted copy derived from this object (it shares the encoder): generator i of the copy is the inverse action of generator i
+        if gd["kind"] == "perm":
+            gi_ = graph.with_inverted_generators
+            nbi = G.flat_states(gi_.get_neighbors_decoded(torch.tensor(sts, dtype=torch.int64)))
+            invg = dict(gd, gens=[G.inverse_perm(p_) for p_ in gd["gens"]])
+            want_i = [list(G.act(invg, i, tuple(s))) for i in range(k) for s in sts]
+            ctx.count("inverted_copy_action_checked")
+            if nbi != want_i:
+                ctx.violation("property_fails", "get_neighbors_decoded of the derived inverted copy differs from the inverse action",
+                              {"oracle": "neighbors_inverted_copy", "graph": gd, "config": cfgd, "states": sts}, True)
         path = [rng.randrange(k) for _ in range(rng.randint(0, 6))]
         ap = G.flat_states(graph.apply_path(torch.tensor(sts, dtype=torch.int64), path))
         want_p = [list(G.run_path(gd, s, path)) for s in sts]
@@ -273,6 +283,30 @@ def run(ctx):
             gmetas.append({"graph": gd, "states": sts})
             ctx.case_seen(["bigmod", M, mod, sts], True)
             ctx.count("big_modulus_cases")
+    # saturated products: every entry of a generator row and of the state column is m - 1, for moduli within +-2 of the places where n*(m-1)^2 crosses
+    # 2^53, 2^63 and 2^64 (an "exact while it fits" shortcut is off by one exactly there); n up to 128
+    import numpy as np
+    for n in (2, 3, 4, 5, 8, 16, 32, 64, 128):
+        for base in (_m.isqrt(2 ** 53 // n), _m.isqrt(2 ** 63 // n), _m.isqrt(2 ** 64 // n)):
+            for delta in (-1, 0, 1, 2):
+                mod = int(base) + delta
+                if not 2 <= mod <= 2 ** 31:
+                    continue
+                M = [[mod - 1] * n for _ in range(n)]
+                if n <= 8:
+                    M[rng.randrange(n)][rng.randrange(n)] = rng.randrange(mod)
+                sts = [[mod - 1] * n, [rng.choice([mod - 1, mod - 2, rng.randrange(mod)]) for _ in range(n)]]
+                want = [[sum(M[r][j] * s_[j] for j in range(n)) % mod for r in range(n)] for s_ in sts]
+                from cayleypy.cayley_graph_def import MatrixGenerator
+                gen = MatrixGenerator.create(np.array(M, dtype=np.int64), modulo=mod)
+                got_np = [gen.apply(np.array(s_, dtype=np.int64).reshape(n, 1)).reshape(-1).tolist() for s_ in sts]
+                got_t = gen.apply_batch_torch(torch.tensor(sts, dtype=torch.int64).reshape(len(sts), n, 1)).reshape(len(sts), n).tolist()
+                ctx.count("saturated_product_cases")
+                ctx.case_seen(["saturated", n, mod], True)
+                for nm, got in (("MatrixGenerator.apply", got_np), ("MatrixGenerator.apply_batch_torch", got_t)):
+                    if got != want:
+                        ctx.violation("property_fails", f"{nm} is not M*S mod m for n={n}, m={mod} with saturated rows (n*(m-1)^2 = {n * (mod - 1) ** 2})",
+                                      {"oracle": "matrix_saturated", "n": n, "modulo": mod, "M": M if n <= 8 else "all m-1", "states": sts if n <= 8 else "all m-1 / mixed"}, True)
     chk = ("fun c => match c with (d, sts, nb, path, ap, auto) => let G := impl_of d in "
            "z_list2_eqb (get_neighbors G sts) nb "
            "&& list_eqb (result_eqb z_list_eqb) (map (fun s => apply_path (acts G) s path) sts) (map (fun s => Ok s) ap) "
